@@ -10,6 +10,14 @@ serially before N goroutines, released by one barrier, make the FIRST uses of ne
 answers come from a separate serial child process (scenario expect).  A child that dies (fatal error: concurrent map
 writes, panic, unexpected exit code) is a failing input (crash:<kind>:<scenario>:<module>), not a harness error.
 
+Client configuration surface (harness/cmd/c17/client.go): client kinds simple / d2 / shared / nilmap / bare (what the
+ExtraRequestHeaders callback returns: a new map per call, ONE shared static http.Header, nil, no callback) in the storm, the
+bursts and scenario history-client (serial histories on one client); every request's WIRE form (method, URL, all headers,
+body, as seen by the transport) is part of its observation and compared with a brand-new client's (scenario expect makes a
+new client for every request); signatures client-config:{header-leak,callers-map-mutated,built-request-rewritten,wire-differs}.
+Registry histories (harness/cmd/c17/trhist.go, scenario history-typeref, v2 only): register / register again / hit / miss /
+the same through a server, sequential and concurrent, every step under a deadline: hang:history-typeref:<step-kind>.
+
 harness/cmd/c17/srv_root.go and d2_root.go are srv_v2.go / d2_v2.go for the root module; regenerate them after editing with
   for f in srv d2; do sed -e 's#go-restli/v2/#go-restli/#g' \
       -e 's#common "github.com/PapaCharlie/go-restli/restlidata/generated/com/linkedin/restli/common"#"github.com/PapaCharlie/go-restli/restlidata"#' \
@@ -57,6 +65,26 @@ def main(tier, seed, replay):
             "typeref scenario is itself a first-use burst (the registry is per process and nothing is looked up serially before the "
             "goroutines start); objects that only a real ZooKeeper connection creates (d2 LazySyncMap loads from the network) are not "
             "constructed here (C18 covers LazySyncMap)",
+            "TEST-ONLY (no counterpart in the Coq model): (1) the client's configuration surface.  Footprint.v says a call reads the "
+            "restli.Client and its resolver and writes only cells of the call; what the caller hands in through the context "
+            "(the ExtraRequestHeaders callback and the http.Header it returns, possibly ONE static map for all requests) is not a cell "
+            "of the model.  That the library never writes that map, that no header of one request shows up in another, and that a "
+            "request built earlier is not rewritten by building another is decided by harness/cmd/c17/client.go alone: the transport "
+            "records every request as it arrives (method, URL, ALL headers, body; multipart boundary and d2 host canonicalised) and the "
+            "record is part of the request's observation in the storm (5 kinds of client: callback returning a new map per call / one "
+            "shared static map / nil / no callback, simple or d2 resolver), in the fresh-state bursts and in scenario history-client "
+            "(quick 16, thorough 80 serial histories of 6-10 steps per child on ONE client: tunnelled then plain, plain then tunnelled, "
+            "build A / build B / send A / send B), each compared with the same request on a BRAND-NEW client (the serial child makes a "
+            "new client per request); the caller's map is compared with a copy after every request.  (2) HISTORIES ON THE CUSTOM TYPEREF "
+            "REGISTRY AND LIVENESS: the model has the registry as one atomic cell (registry_atomic: a lookup or a registration is ONE "
+            "sync.Map step) and says nothing about termination; that a lookup which FAILS (panic 'Unregistered', recovered by the "
+            "server) leaves the registry usable - no lock held on any path - is an assumption of the model, tested by "
+            "harness/cmd/c17/trhist.go (v2 only; the root module has no registry): in child processes, a fixed sequential history with "
+            "every step kind (register, register again, hit, miss, hit / miss through a server action) after every other, seeded random "
+            "histories, 3 concurrent phases (N goroutines x 12 lookups while one goroutine registers 2 types) and a tail; expected results "
+            "from the API contract and the set of types registered so far; every step under a 25 s deadline (35 s for a concurrent "
+            "phase): a step that does not finish is the failing input hang:history-typeref:<step kind> with the history and the index of "
+            "the stuck step.  A hang anywhere else is only caught by the 10 minute deadline of a child (run-failed)",
             "modelled, not verified: the Go memory model and scheduler; sync.Map and sync.Mutex (Atomic / Locked accesses are "
             "ordered BY DEFINITION of [synced]); net/http (http.Client is one atomic cell; each request owns its *http.Request and "
             "ResponseWriter); the race detector's happens-before analysis",
